@@ -23,7 +23,10 @@ THEOREMS = [
     "C07.catPre_shape", "C07.generated_cat_eq_model", "C07.generated_cat_separate_sorted", "C07.generated_cat_merged_sorted",
 ]
 TRUSTED = ["hand-written models Model/Redirect.lean of redirect_tree / cat_tree (tied by the c07.redirect and c07.cat correspondence: parents, node identity, "
-           "positions and types after the final sort compared exactly); the final sort is C05's model"]
+           "positions and types after the final sort compared exactly); the final sort is C05's model",
+           "cat_tree is ALSO translated from the source (Gen/AlgoCat.lean) and proved equal to the model (RefineCat.cat_core / cat_refines, C07.generated_cat_*); "
+           "trusted glue of that translation: harness/algo_specs/07_cattree.py (header) — columns id/pid/type/x/y/z, the two ndata loops per column, "
+           "the junction test `norm < EPS` as `squared lattice distance = 0` (EPS read from the source, must be in (0, 1/128]), the legacy `no_move` absent"]
 ASSUMPTIONS = ["lattice coordinates: the junction test `norm < EPS` is `squared distance = 0` on exact integers",
                "numpy concatenate / pad / delete as list append / erase"]
 
